@@ -688,6 +688,9 @@ class Ev(object):
         if elem_of is not None and nparams == 1:
             for fl in _filters_of(elem_of):
                 self.assume(tm.apply_lam(fl, [syms[0]]))
+            if elem_of.op == "iter" and elem_of.a[0].op == "adt" and elem_of.a[0].a[0] == "Range" and len(elem_of.a[0].a) == 4:
+                # the elements of lo..hi are below hi
+                self.assume(tm.lt(syms[0], elem_of.a[0].a[3]))
         v = self.apply(f, syms)
         del self.pc[n0:]
         changed = False
